@@ -13,12 +13,22 @@ THEOREMS = {
         ],
     },
     "C02": {
+        "JP.Props.C02bytes": [
+            "JP.C02.text_layer", "JP.C02.mergePatch_bytes", "JP.C02.mergePatch_bytes_eqv", "JP.C02.merge_scalar_verbatim",
+            "JP.C02.merge_scalar_value", "JP.C02.mergePatch_errors_bytes",
+        ],
         "JP.Props.C02": [
             "JP.C02.mergeNC_refines_eq", "JP.C02.mergeNC_refines", "JP.C02.mergeDocsC_refines", "JP.C02.pruneC_spec",
             "JP.C02.doMergePatch_refines", "JP.C02.mergePatch_value", "JP.C02.doMergePatch_errors",
         ],
     },
     "C03": {
+        "JP.Props.C03impl": [
+            "JP.C03.anyOf_eqv", "JP.C03.matchesValue_eqv", "JP.C03.getDiff_refines", "JP.C03.getDiff_normal",
+            "JP.C03.create_value", "JP.C03.create_refines", "JP.C03.create_roundtrip_strong", "JP.C03.create_roundtrip_bytes",
+            "JP.C03.create_array_refines", "JP.C03.create_rejects", "JP.C03.create_accepts", "JP.C03.create_null_rejected",
+            "JP.C03.create_null_elem_rejected",
+        ],
         "JP.Props.C03spec": [
             "JP.C03.roundtrip_strong", "JP.C03.roundtrip", "JP.C03.empty_iff", "JP.C03.deletions_null",
             "JP.C03.additions_whole", "JP.C03.minimal", "JP.C03.minimal_rec", "JP.C03.literals_from_target",
@@ -43,6 +53,10 @@ THEOREMS = {
         ],
     },
     "C06": {
+        "JP.Props.C06bytes": [
+            "JP.C06.valid_eq_parse", "JP.C06.equal_bytes", "JP.C06.equal_bytes_value", "JP.C06.equal_refl_bytes",
+            "JP.C06.equal_symm_bytes", "JP.C06.equal_trans_bytes", "JP.C06.equal_malformed", "JP.C06.equal_invalid",
+        ],
         "JP.Props.C06spec": [
             "JP.C06.eqv_refl", "JP.C06.eqv_symm", "JP.C06.eqv_trans", "JP.C06.null_only_null",
             "JP.C06.null_only_null'", "JP.C06.beq_imp_eq", "JP.C06.beq_imp_eqv",
@@ -54,6 +68,9 @@ THEOREMS = {
         ],
     },
     "C07": {
+        "JP.Props.C07bytes": [
+            "JP.C07.mergeMerge_bytes", "JP.C07.library_law",
+        ],
         "JP.Props.C07spec": [
             "JP.C07.compose_law_strong", "JP.C07.compose_law", "JP.C07.compose_law_nonobject_eq", "JP.C07.nonobject_p2",
             "JP.C07.compose_lookup", "JP.C07.later_overrides", "JP.C07.deletions_survive", "JP.C07.earlier_survives",
@@ -115,6 +132,10 @@ THEOREMS = {
         ],
     },
     "C15": {
+        "JP.Props.C15merge": [
+            "JP.C15.doMergePatch_ok_shape", "JP.C15.doMerge_output_valid", "JP.C15.mergePatch_output_valid", "JP.C15.mergeMergePatches_output_valid",
+            "JP.C15.doMerge_output_clean", "JP.C15.create_output_valid", "JP.C15.merge_output_valid",
+        ],
         "JP.Props.C15text": [
             "JP.C15.unquote_escBody", "JP.C15.escBody_idem", "JP.C15.escBody_clean", "JP.C15.escBody_valid",
             "JP.C15.escBody_utf8", "JP.C15.valueOf_escape", "JP.C15.wfc_escape", "JP.C15.print_escape_clean",
